@@ -8,7 +8,8 @@
                  crashed before the behaviour starts is the inode of (crashed) daemon 1.
      listening   daemons holding an open listener (on their own inode, whatever the path names)
      dbLock      0, or the daemon holding the bbolt file lock
-   Daemon d      dpc[d]:  none -> spawned -[Listen]-> listening | dead (listen failed: path exists)
+   Daemon d      dpc[d]:  none -> spawned -[Listen = bind]-> bound | dead (bind failed: path exists)
+                          bound -[StartListen]-> listening   (a dial in between is REFUSED)
                           listening -[OpenDb]-> serving (hasdb[d] says whether the lock was obtained;
                                      the code serves errors when store.NewStore timed out)
                           serving -[ConnDone, last client]-> exiting -[RemoveSock]-> removed
@@ -57,14 +58,15 @@ InitWith(kind) ==
   /\ listening = IF kind = "live" THEN {1} ELSE {}
   /\ dbLock = IF kind = "live" THEN 1 ELSE 0
   /\ dpc = [d \in Daemons |-> IF d = 1 /\ kind = "live" THEN "serving"
-                              ELSE IF d = 1 /\ kind = "stale" THEN "crashed" ELSE "none"]
+                              ELSE IF d = 1 /\ kind = "stale" THEN "crashed"
+                              ELSE IF d = 1 /\ kind = "bound" THEN "bound" ELSE "none"]   \* bound: a daemon caught between bind and listen
   /\ hasdb = [d \in Daemons |-> d = 1 /\ kind = "live"]
   /\ conns = [d \in Daemons |-> {}] /\ closedc = [d \in Daemons |-> {}] /\ backlog = [d \in Daemons |-> {}]
   /\ spc = [s \in Shells |-> "start"] /\ sconn = [s \in Shells |-> 0] /\ tries = [s \in Shells |-> 0]
   /\ nsp = IF kind = "none" THEN 0 ELSE 1
   /\ crashes = 0 /\ bad = {} /\ hist = <<>>
 
-Alive(d) == dpc[d] \in {"spawned", "listening", "serving", "exiting", "removed", "dbclosed"}
+Alive(d) == dpc[d] \in {"spawned", "bound", "listening", "serving", "exiting", "removed", "dbclosed"}
 \* the inode the path names was created by a daemon other than `me` that is alive
 OthersLive(me) == sock # 0 /\ sock # me /\ Alive(sock)
 
@@ -147,13 +149,21 @@ Exit(s) ==
   /\ Lbl("Exit", s, sconn[s], "", "")
 
 \* ---- daemons
+\* net.Listen is bind(2) -- which creates the socket file, or fails if the path exists -- followed by
+\* listen(2); a dial between the two is refused although the owner is alive
 Listen(d) ==
   /\ dpc[d] = "spawned"
   /\ IF sock = 0
-     THEN /\ sock' = d /\ listening' = listening \cup {d} /\ dpc' = [dpc EXCEPT ![d] = "listening"]
-     ELSE /\ dpc' = [dpc EXCEPT ![d] = "dead"] /\ UNCHANGED <<sock, listening>>
-  /\ UNCHANGED <<init, dbLock, hasdb, conns, closedc, backlog, spc, sconn, tries, nsp, crashes, bad>>
+     THEN /\ sock' = d /\ dpc' = [dpc EXCEPT ![d] = "bound"]
+     ELSE /\ dpc' = [dpc EXCEPT ![d] = "dead"] /\ UNCHANGED sock
+  /\ UNCHANGED <<init, listening, dbLock, hasdb, conns, closedc, backlog, spc, sconn, tries, nsp, crashes, bad>>
   /\ Lbl("Listen", 0, d, IF sock = 0 THEN "ok" ELSE "inuse", "")
+
+StartListen(d) ==
+  /\ dpc[d] = "bound"
+  /\ listening' = listening \cup {d} /\ dpc' = [dpc EXCEPT ![d] = "listening"]
+  /\ UNCHANGED <<init, sock, dbLock, hasdb, conns, closedc, backlog, spc, sconn, tries, nsp, crashes, bad>>
+  /\ Lbl("StartListen", 0, d, "", "")
 
 OpenDb(d) ==
   /\ dpc[d] = "listening"
@@ -210,7 +220,7 @@ CloseListener(d) ==
   /\ Lbl("CloseListener", 0, d, IF sock = 0 THEN "enoent" ELSE "removed", IF OthersLive(d) THEN "close-other" ELSE "")
 
 Crash(d) ==
-  /\ crashes < MaxCrash /\ dpc[d] \in {"listening", "serving", "exiting", "removed", "dbclosed"}
+  /\ crashes < MaxCrash /\ dpc[d] \in {"bound", "listening", "serving", "exiting", "removed", "dbclosed"}
   /\ crashes' = crashes + 1
   /\ dpc' = [dpc EXCEPT ![d] = "crashed"]
   /\ listening' = listening \ {d}
@@ -221,11 +231,12 @@ Crash(d) ==
   /\ Lbl("Crash", 0, d, "", "")
 
 ShellStep(s) == FirstLstat(s) \/ FirstDial(s) \/ RemoveStale(s) \/ Spawn(s) \/ RetryLstat(s) \/ RetryDial(s) \/ GiveUp(s)
-DaemonStep(d) == Listen(d) \/ OpenDb(d) \/ RemoveSock(d) \/ CloseDb(d) \/ CloseListener(d)
+DaemonStep(d) == Listen(d) \/ StartListen(d) \/ OpenDb(d) \/ RemoveSock(d) \/ CloseDb(d) \/ CloseListener(d)
                  \/ \E s \in Shells : Accept(d, s) \/ ConnDone(d, s)
 \* steps the real daemon takes by itself as soon as they are possible (no hook gates them)
 Urgent == \/ \E d \in Daemons, s \in Shells : Accept(d, s) \/ ConnDone(d, s)
           \/ \E s \in Shells : FirstDial(s) \/ RetryDial(s)      \* no hook between lstat and the dial
+          \/ \E d \in Daemons : StartListen(d)                   \* nor between bind and listen
 Gated == \/ \E s \in Shells : FirstLstat(s) \/ RemoveStale(s) \/ Spawn(s) \/ RetryLstat(s) \/ GiveUp(s) \/ Exit(s)
          \/ \E d \in Daemons : Listen(d) \/ OpenDb(d) \/ RemoveSock(d) \/ CloseDb(d) \/ CloseListener(d)
 Next == (\E s \in Shells : ShellStep(s) \/ Exit(s)) \/ (\E d \in Daemons : DaemonStep(d) \/ Crash(d))
@@ -236,7 +247,7 @@ NextG == IF ENABLED Urgent THEN Urgent ELSE Gated
 Final == {"connected", "failed", "exited", "outofids"}
 TypeOK ==
   /\ sock \in 0..ND /\ listening \subseteq Daemons /\ dbLock \in 0..ND
-  /\ \A d \in Daemons : dpc[d] \in {"none", "spawned", "listening", "serving", "exiting", "removed", "dbclosed", "dead", "crashed"}
+  /\ \A d \in Daemons : dpc[d] \in {"none", "spawned", "bound", "listening", "serving", "exiting", "removed", "dbclosed", "dead", "crashed"}
   /\ \A s \in Shells : spc[s] \in {"start", "probing", "refused", "spawning", "waiting", "reprobing", "dialled"} \cup Final
   /\ \A d \in Daemons : closedc[d] \subseteq conns[d] /\ (hasdb[d] /\ Alive(d) /\ dpc[d] # "dbclosed" => dbLock = d)
 ConnectedIsLive ==
